@@ -9,9 +9,12 @@ rep = json.loads(r.stdout)
 dst = os.path.join(os.path.dirname(HERE), 'seeded', name)
 os.makedirs(dst, exist_ok=True)
 for f in ('patch.diff', 'demo.rs', 'meta.md'):
-    if os.path.exists(os.path.join(src, f)):
+    if os.path.exists(os.path.join(src, f)) and os.path.abspath(src) != os.path.abspath(dst):
         shutil.copy(os.path.join(src, f), os.path.join(dst, f if f != 'meta.md' else 'author_notes.md'))
 confirmed = rep.get('patch_applies') and rep.get('demo_without_patch') == 'passes' and rep.get('demo_with_patch') == 'fails' and str(rep.get('baseline_with_patch', '')).startswith('passes')
+old_history = None
+if os.path.exists(os.path.join(dst, 'meta.json')):
+    old_history = json.load(open(os.path.join(dst, 'meta.json'))).get('history')
 meta = {
     'breaks_property': pid,
     'origin': 'independent sub-agent given only the property text and a scratch worktree of /repo (nothing from /verif)',
@@ -22,5 +25,7 @@ meta = {
     'caught_by': sorted(rep.get('checks', {}).keys()),
     'caught_by_own_property_check': pid in rep.get('checks', {}),
 }
+if old_history:
+    meta['history'] = old_history
 json.dump(meta, open(os.path.join(dst, 'meta.json'), 'w'), indent=1)
 print('stored', dst, 'confirmed', confirmed, 'caught_by', meta['caught_by'])
